@@ -17,6 +17,7 @@ TRUSTED_COMMON = [
 PROPS = {
     "C05": {
         "units": ["gamma"],
+        "bounded_checks": ["gamma"],
         "level": "proof",
         "property_obligations": ["theorem_c05", "lemma_gamma", "lemma_gamma_quant", "lemma_persistence", "lemma_persistence_quant",
                                  "lemma_prefix_sat", "lemma_prefix_quant", "lemma_there_classical", "lemma_there_quant",
@@ -33,6 +34,7 @@ PROPS = {
     },
     "C19": {
         "units": ["break", "problem"],
+        "bounded_checks": ["strong"],
         "level": "other",
         "property_obligations": ["lemma_break_cl", "lemma_break_ht", "lemma_break_len", "lemma_forall_distrib",
                                  "Problem::decompose", "Problem::decompose_independent", "Problem::decompose_sequential", "Problem::axioms", "Problem::conjectures",
@@ -181,6 +183,7 @@ PROPS = {
     },
     "C09": {
         "units": ["problem"],
+        "bounded_checks": ["strong"],
         "level": "other",
         "property_obligations": ["Problem::create_unique_formula_names", "lemma_unique_names", "Problem::add_theory",
                                  "Problem::decompose", "Problem::decompose_independent", "Problem::decompose_sequential", "Problem::axioms", "Problem::conjectures"],
@@ -232,6 +235,7 @@ PROPS = {
     },
     "C12": {
         "units": ["strong"],
+        "bounded_checks": ["strong"],
         "level": "other",
         "property_obligations": ["StrongEquivalenceTask::transition_axioms", "transition", "lemma_transition_true", "lemma_transition_cover", "Predicate::to_formula",
                                  "Program::predicates", "lemma_program_preds"],
@@ -278,6 +282,7 @@ PROPS = {
     },
     "C03": {
         "units": ["gamma", "strong"],
+        "bounded_checks": ["strong"],
         "level": "other",
         "property_obligations": ["theorem_c05", "lemma_gamma", "StrongEquivalenceTask::transition_axioms", "lemma_transition_cover", "lemma_transition_true"],
         "carriers": ["Formula::gamma", "Formula::here", "Formula::there", "prepend_predicate", "Formula::apply"],
